@@ -75,6 +75,12 @@ fn analyse(c: &Case) -> Dump {
 
 /// which of two runs shows a line and which does not is arbitrary: the signature has no direction
 fn nondet_sig(diffs: &[crate::oracle::dump::Diff]) -> String {
+    // differences that involve the generated cross-library chain (files libN/xK.lua, uses_libs.lua) get their own
+    // signature: they are about the order in which library workspaces are analysed, not the open overload/unresolve families
+    let lib_chain = diffs.iter().any(|d| d.only_left.iter().chain(d.only_right.iter()).any(|l| l.contains("uses_libs.lua") || (2..8).any(|k| l.contains(&format!("lib{k}/x")))));
+    if lib_chain {
+        return "nondet:library-workspace-order".to_string();
+    }
     format!("nondet:{}", classify(diffs)).replace(":added", ":presence").replace(":removed", ":presence")
 }
 
